@@ -341,6 +341,56 @@ func TestVerif_C41(t *testing.T) {
 		x.Outcome("%s up=%d fetch=%d | %s", tr, store.uploads, store.fetches, done(run))
 	})
 
+	// Space B2: the fetched object is the two-batch stream torn after n bytes
+	// (every 8-byte boundary, plus the byte after it), or n bytes of it followed
+	// by bytes that are not an IPC message — a fault placed at every position of
+	// the upload, including after the first complete batch.
+	probe := vf41NewStore()
+	probe.preload()
+	full := len(probe.objs[vf41URL2])
+	var cuts []int
+	for n := 0; n <= full; n += 8 {
+		cuts = append(cuts, n)
+		if n+1 < full {
+			cuts = append(cuts, n+1)
+		}
+	}
+	venum.Explore(t, venum.Cfg{Name: "external-torn", Shardable: true}, func(x *venum.X) {
+		n := cuts[x.Choose(len(cuts), "cut")]
+		base := x.Pick("fault", vf41URLcut, vf41URLtail)
+		url := base + fmt.Sprint(n)
+		site := x.Pick("site", "unary", "init", "input")
+		httpT := x.Bool("http")
+		tr := "pipe"
+		if httpT {
+			tr = "http"
+		}
+		cls := "ext-torn-cut"
+		if base == vf41URLtail {
+			cls = "ext-torn-garbage-tail"
+		}
+		var k vf37Kind
+		switch site {
+		case "unary":
+			k = vf37Kind{Name: "torn-req-unary", Class: cls, Method: "u_ok", X: 5, Via: url}
+		case "init":
+			k = vf37Kind{Name: "torn-req-init", Class: cls, Method: "exch", Stream: 2, X: 6, In: []string{"i"}, Via: url}
+		default:
+			k = vf37Kind{Name: "torn-input", Class: cls, Method: "exch", Stream: 2, X: 6, In: []string{"i", "P" + url, "i"}}
+		}
+		ok := vf37Kind{Name: "u-ok", Class: "ok", Method: "u_ok", X: 5}
+		hist := []*vf37Kind{&k, &ok}
+		store := vf41NewStore()
+		store.preload()
+		cfg := &ExternalLocationConfig{Storage: store, ExternalizeThresholdBytes: 64, URLValidator: nil,
+			HTTPClient: &http.Client{Transport: store}, RetryDelay: 1, MaxRetries: 1}
+		env := &vf37Env{External: cfg, NoCap: true}
+		vf41ExtEnv(env)
+		done := vf41Probe(x, tr, env, hist)
+		run := vf37RunHistory(hist, httpT, env)
+		x.Outcome("%s %s fetch=%d | %s", tr, site, store.fetches, done(run))
+	})
+
 	// Space C: shared memory on the pipe transport.
 	shm := vf41ShmKinds()
 	venum.Explore(t, venum.Cfg{Name: "shm-histories", Shardable: true}, func(x *venum.X) {
